@@ -1,5 +1,6 @@
 import ChythonModel.Proofs.C04
 import ChythonModel.Spec.OrganicValence
+import ChythonModel.Spec.Lewis
 /-!
 # C04 — implicit hydrogen counts and valence errors follow the element valence rules
 
@@ -463,36 +464,36 @@ example : (brutto ⟨[(1, {z := 8, implH := some 2})], [(1, [])]⟩).toOption = 
 
 /-! ## 7. agreement with the OpenSMILES normal valences (independent reference, `Spec/OrganicValence.lean`) -/
 
-/-- the first rule for `(0, False, v)` of element `z` is unconditional and assigns `h` -/
-def headRuleIs (z v h : Nat) : Bool :=
+/-- the first rule for `(q, False, v)` of element `z` is unconditional and assigns `h` -/
+def headRuleIs (z : Nat) (q : Int) (v h : Nat) : Bool :=
   match tableOf z with
-  | some t => match valenceRules t 0 false v with
-    | some (q :: _) => q.set.isEmpty && q.dict.isEmpty && q.h == h
+  | some t => match valenceRules t q false v with
+    | some (r :: _) => r.set.isEmpty && r.dict.isEmpty && r.h == h
     | _ => false
   | none => false
 
-theorem calc_of_headRule (z : Nat) (bs : List BE) (h : Nat) (hz : z ≠ 1) (ha : aromaCount bs = 0)
-    (hh : headRuleIs z (explicitSum bs) h = true) : calcImplicit ⟨z, 0, false, bs⟩ = some (some h) := by
+theorem calc_of_headRule (z : Nat) (q : Int) (bs : List BE) (h : Nat) (hz : z ≠ 1) (ha : aromaCount bs = 0)
+    (hh : headRuleIs z q (explicitSum bs) h = true) : calcImplicit ⟨z, q, false, bs⟩ = some (some h) := by
   simp only [headRuleIs] at hh
   cases ht : tableOf z with
   | none => simp [ht] at hh
   | some t =>
     simp only [ht] at hh
-    cases hv : valenceRules t 0 false (explicitSum bs) with
+    cases hv : valenceRules t q false (explicitSum bs) with
     | none => simp [hv] at hh
     | some rules =>
       cases rules with
       | nil => simp [hv] at hh
-      | cons q tl =>
+      | cons r tl =>
         simp only [hv, Bool.and_eq_true, List.isEmpty_iff, beq_iff_eq] at hh
         obtain ⟨⟨h1, h2⟩, h3⟩ := hh
         have hz' : (z == 1) = false := by simp [hz]
-        have hm : ruleMatches (explicitDict bs) q = true := by simp [ruleMatches, h1, h2]
+        have hm : ruleMatches (explicitDict bs) r = true := by simp [ruleMatches, h1, h2]
         simp [calcImplicit, ht, calcWith, hz', ha, hv, firstRule, hm, h3]
 
 theorem organic_heads :
     ∀ zv ∈ OrganicValence.normalValences, ∀ v0 ∈ zv.2.head?, ∀ v ∈ List.range (v0 + 1),
-      headRuleIs zv.1 v (v0 - v) = true := by decide +kernel
+      headRuleIs zv.1 0 v (v0 - v) = true := by decide +kernel
 
 /-- **Reference theorem.** For every element of the organic subset, neutral and not a radical, with localised bonds
     (any neighbours, any number of bonds) whose orders sum to at most the lowest normal valence, `calc_implicit`
@@ -517,12 +518,70 @@ theorem organic_subset_reference (z : Nat) (hz : z ∈ OrganicValence.organicSub
     by_cases hle : explicitSum bs ≤ v0
     · simp only [hle, if_true, Option.some.injEq] at hs
       subst hs
-      exact calc_of_headRule zv.1 bs _ hne ha
+      exact calc_of_headRule zv.1 0 bs _ hne ha
         (organic_heads zv hzv v0 (hlow v0 hl) (explicitSum bs) (by simp; omega))
     · simp [hle] at hs
 
 example : calcImplicit ⟨7, 0, false, [(1, 6), (1, 6)]⟩ = some (some 1) :=
   organic_subset_reference 7 (by decide) _ (by decide) 1 (by decide)
+
+theorem charged_heads :
+    ∀ zq ∈ Lewis.chargedValence, ∀ v ∈ List.range (zq.2 + 1), headRuleIs zq.1.1 zq.1.2 v (zq.2 - v) = true := by
+  decide +kernel
+
+/-- **Charged reference.** For the common charged, non-radical states of the organic subset (B⁻, C⁺, C⁻, N⁺, N⁻, O⁺, O⁻,
+    O²⁻, F⁻, P⁺, P⁻, S⁻, S²⁻, Cl⁻, Br⁻, I⁻) with localised bonds whose orders sum to `v ≤` the isoelectronic normal valence
+    `v0`, `calc_implicit` assigns exactly `v0 − v` hydrogens — whatever the neighbours are. -/
+theorem charged_subset_reference (z : Nat) (q : Int) (v0 : Nat) (hzq : ((z, q), v0) ∈ Lewis.chargedValence)
+    (bs : List BE) (ha : aromaCount bs = 0) (hv : explicitSum bs ≤ v0) :
+    calcImplicit ⟨z, q, false, bs⟩ = some (some (v0 - explicitSum bs)) := by
+  have hne : ∀ zq ∈ Lewis.chargedValence, zq.1.1 ≠ 1 := by decide
+  exact calc_of_headRule z q bs _ (hne _ hzq) ha
+    (charged_heads _ hzq (explicitSum bs) (by simp; omega))
+
+example : calcImplicit ⟨7, 1, false, [(1, 6), (1, 6)]⟩ = some (some 2) :=
+  charged_subset_reference 7 1 4 (by decide) _ (by decide) (by decide)
+
+/-- every rule of every key of the table of `z` realises a total valence accepted by `ok charge radical V` -/
+def allRulesWithin (z : Nat) (ok : Int → Bool → Nat → Bool) : Bool :=
+  match tableOf z with
+  | none => false
+  | some t => t.all fun krs => krs.2.all fun q => ok krs.1.1 krs.1.2.1 (krs.1.2.2 + q.h)
+
+/-- a table-wide bound transfers to every count `calc_implicit` assigns and every count `check_implicit` accepts -/
+theorem within_of_allRules (z : Nat) (ok : Int → Bool → Nat → Bool) (hw : allRulesWithin z ok = true) (hz : z ≠ 1)
+    (c : Int) (r : Bool) (bs : List BE) (ha : aromaCount bs = 0) (h : Nat)
+    (hc : calcImplicit ⟨z, c, r, bs⟩ = some (some h) ∨ checkImplicit ⟨z, c, r, bs⟩ h = some true) :
+    ok c r (explicitSum bs + h) = true := by
+  simp only [allRulesWithin] at hw
+  cases ht : tableOf z with
+  | none => simp [ht] at hw
+  | some t =>
+    simp only [ht] at hw
+    have hck : checkWith t ⟨z, c, r, bs⟩ h = true := by
+      cases hc with
+      | inl h1 =>
+        simp only [calcImplicit, ht, Option.map_some, Option.some.injEq] at h1
+        exact check_of_calc t ⟨z, c, r, bs⟩ ha h h1
+      | inr h2 =>
+        simpa only [checkImplicit, ht, Option.map_some, Option.some.injEq] using h2
+    obtain ⟨rules, hv, q, hq, eh, _⟩ := (check_iff_rule t ⟨z, c, r, bs⟩ hz ha h).mp hck
+    have := List.all_eq_true.mp (List.all_eq_true.mp hw _ (lookup_mem t _ _ hv)) q hq
+    rw [← eh]; exact this
+
+/-- **Lewis electron count.** For every p-block element of groups 13–17 (B…At, 24 elements), *every* charge and radical
+    state and every localised bond list: a hydrogen count assigned by `calc_implicit` or accepted by `check_implicit`
+    gives a total valence `V` with `V + r ≤ e − q` and `e − q − V − r` even (or the bare atom `V = 0`). A table entry whose
+    hydrogen count or environment is off by one can not satisfy this. -/
+theorem lewis_electron_count (z e : Nat) (hz : (z, e) ∈ Lewis.valenceElectrons) (c : Int) (r : Bool) (bs : List BE)
+    (ha : aromaCount bs = 0) (h : Nat)
+    (hc : calcImplicit ⟨z, c, r, bs⟩ = some (some h) ∨ checkImplicit ⟨z, c, r, bs⟩ h = some true) :
+    Lewis.ok e c r (explicitSum bs + h) = true := by
+  have hw : ∀ ze ∈ Lewis.valenceElectrons, allRulesWithin ze.1 (Lewis.ok ze.2) = true ∧ ze.1 ≠ 1 := by
+    decide +kernel
+  exact within_of_allRules z _ (hw (z, e) hz).1 (hw (z, e) hz).2 c r bs ha h hc
+
+example : Lewis.ok 5 (-1) false 2 = true ∧ Lewis.ok 5 (-1) false 3 = false := by decide
 
 /-- every rule list reachable by a neutral non-radical atom of `z` only realises valences accepted by `ok` —
     either through its unconditional first rule or through every rule -/
@@ -623,5 +682,48 @@ theorem second_period_exact (z : Nat) (hz : z ∈ [5, 6, 7, 8, 9]) (bs : List BE
 
 example : calcImplicit ⟨6, 0, false, [(2, 8), (2, 8), (1, 1)]⟩ = some none :=
   second_period_exact 6 (by decide) _ (by decide)
+
+/-! ## 8. the operations that write hydrogen counts besides `calc_implicit` -/
+
+/-- **`implicify_hydrogens`.** Whenever the scan for one heavy atom (not hydrogen, localised bonds) removes `i` of its `lenH`
+    removable explicit hydrogens and stores the count `h`, then `1 ≤ i ≤ lenH`, `h ≥ i` (the removed hydrogens are still counted),
+    and `h` is a count that `check_implicit` accepts for the atom's *remaining* bonds (`others` plus the `lenH − i` hydrogens
+    that stay explicit): the operation leaves the atom in a valence state of its element tables. -/
+theorem implicify_scan_sound (t : Rules) (z : Nat) (c : Int) (r : Bool) (others : List BE) (lenH : Nat)
+    (hz : z ≠ 1) (ha : aromaCount others = 0) :
+    ∀ start, start ≤ lenH → ∀ i h, implicifyScan t c r others lenH start = some (i, h) →
+      1 ≤ i ∧ i ≤ start ∧ i ≤ h ∧
+      checkWith t ⟨z, c, r, others ++ List.replicate (lenH - i) (1, 1)⟩ h = true := by
+  intro start
+  induction start with
+  | zero => intro _ i h hs; simp [implicifyScan] at hs
+  | succ k ih =>
+    intro hle i h hs
+    simp only [implicifyScan] at hs
+    cases hstep : scanStep t c r (others ++ List.replicate (lenH - (k + 1)) (1, 1)) (k + 1) with
+    | stop => simp [hstep] at hs
+    | next =>
+      simp only [hstep] at hs
+      obtain ⟨h1, h2, h3, h4⟩ := ih (by omega) i h hs
+      exact ⟨h1, by omega, h3, h4⟩
+    | found h' =>
+      simp only [hstep, Option.some.injEq, Prod.mk.injEq] at hs
+      obtain ⟨e1, e2⟩ := hs
+      subst e1; subst e2
+      obtain ⟨rules, q, hv, hq, eh, hge, hm⟩ := scanStep_found _ _ _ _ _ _ hstep
+      refine ⟨by omega, Nat.le_refl _, hge, ?_⟩
+      have haro : aromaCount (others ++ List.replicate (lenH - (k + 1)) (1, 1)) = 0 := by
+        simp only [aromaCount, List.filter_append, List.length_append] at ha ⊢
+        have : (List.filter (fun x : BE => x.1 == 4) (List.replicate (lenH - (k + 1)) (1, 1))).length = 0 := by
+          simp
+        omega
+      rw [counted8_eq_counted _ haro] at hv hm
+      have hz' : (z == 1) = false := by simp [hz]
+      simp only [checkWith, hz', haro, explicitSum, explicitDict, hv]
+      simp only [Bool.false_eq_true, if_false, bne_self_eq_false, List.any_eq_true, Bool.and_eq_true, beq_iff_eq]
+      exact ⟨q, hq, eh.symm, hm⟩
+
+/-- `[H]NC`: the explicit hydrogen of a methylamine nitrogen that also has an implicit one is removed and the count becomes 2 -/
+example : (tableOf 7).map (fun t => implicifyScan t 0 false [(1, 6)] 1 1) = some (some (1, 2)) := by decide +kernel
 
 end ChythonModel.Props.C04
